@@ -226,6 +226,7 @@ func NewWorld(k *Kernel) *World {
 	}
 	w := &World{K: k, Net: NewNet(k), Journal: &Journal{}, Keys: keys, Nodes: map[string]*Node{}}
 	w.Net.Journal = w.Journal
+	InstallHooks(k)
 	return w
 }
 
